@@ -78,7 +78,19 @@ func (d *redisDatum) ToString() (value string, success bool) {
 	}
 }
 
+// maxArrayDepth bounds how deep arrays may be nested in a command: the
+// parser recurses once per level, and a stack overflow is fatal.
+const maxArrayDepth = 32
+
 func parseRedisData(scanner *bufio.Scanner) (redisDatum, error) {
+	return parseRedisDataDepth(scanner, 0)
+}
+
+func parseRedisDataDepth(scanner *bufio.Scanner, depth int) (redisDatum, error) {
+	if depth > maxArrayDepth {
+		return redisDatum{}, fmt.Errorf("Arrays nested deeper than %d", maxArrayDepth)
+	}
+
 	success := scanner.Scan()
 	if !success {
 		err := scanner.Err()
@@ -99,7 +111,7 @@ func parseRedisData(scanner *bufio.Scanner) (redisDatum, error) {
 		}
 		var items []interface{}
 		for i := uint64(0); i < n; i++ {
-			item, err := parseRedisData(scanner)
+			item, err := parseRedisDataDepth(scanner, depth+1)
 			if err != nil {
 				return redisDatum{}, err
 			}
